@@ -237,4 +237,6 @@ pub fn run_c10(cx: &mut Cx) {
         }
     });
     cx.run();
+    if cx.ch.chance("concurrent_burst", 1, 6) { crate::scen_burst::generator_burst(cx, "C10"); }
+    if cx.ch.chance("many_keys_window", 1, 4) { crate::scen_burst::many_keys_window(cx); }
 }
